@@ -34,11 +34,35 @@ CHECKS = {
         "Exhaustive (exhaustive:true) enumeration of string atoms in every slot singly and jointly, point shapes, numeric edge values incl. every float64 exponent, timestamp edges, both prefix styles, three csv dialects; each point written by TinyFlux.insert to a real file and read back by a fresh TinyFlux. Not claimed: strings outside the atom closure.",
         E3NOTE, "4/C05",
     ),
+    "C06": (
+        "histmc", "model_checking",
+        "explicit-state BFS over histories incl. raising operations; at every state with a valid index all index answers compared with a freshly built index and with a force-rebuilt replica",
+        "Whenever the database reports its index valid, every answer the Index can give (search items + exactness over the vocabulary, measurements, tag/field keys/values, timestamps, len, empty, latest_time, every measurement argument) equals that of Index().build(stored contents); count/search equal a replica after invalidate()+reindex(); validity transition invariants (in-order insert keeps valid, reads leave valid). Closure is reported when reached.",
+        E1NOTE, "4/C06",
+    ),
+    "C07": (
+        "histmc", "model_checking",
+        "explicit-state BFS over histories; getter/length/iteration battery at every distinct state against the reference model",
+        "At every reachable state (alphabet with embedded line breaks, heterogeneous field sets, two measurements sharing keys) all exploration getters, len, iteration, all() and their per-measurement handle versions are compared with the reference, on both serving paths and both storages.",
+        E1NOTE, "4/C07",
+    ),
     "C09": (
         "univ", "model_checking",
         "breadth-first closure of the query term algebra under the real constructors ~ & |, every term evaluated on every point of a finite universe against an independent evaluator",
         "Every term up to depth 1 over all atoms, depth 2 over 6/10 representatives, depth 3 over 3 representatives (thorough) is built by real constructor calls and evaluated on all 378 universe points; value must equal the reference evaluator's, be a bool, and no exception may escape.",
         E3NOTE, "4/C09",
+    ),
+    "C10": (
+        "histmc", "model_checking",
+        "explicit-state BFS over histories with handle acquisition; every handle operation vs its database form on two replicas of the same state, and vs the reference restricted to the name",
+        "At every reachable state each handle write (insert, insert_multiple, remove, remove_all, update forms, update_all) for names m, n, absent (thorough: '') runs on replica A and the filtered database form on replica B: outcome, contents, index validity equal, and equal to the reference; all handle reads/getters compared with the restricted reference; handles held across drop_measurement/remove_all are used.",
+        E1NOTE, "4/C10",
+    ),
+    "C11": (
+        "histmc", "model_checking",
+        "explicit-state BFS over histories where 75 faulting calls are executed at every state (a subset as BFS edges); contents and index compared with the reference after each raise",
+        "Every faulting call (non-Point inserts, non-Point at each position of insert_multiple, update callables raising at invocation k or returning invalid values, with a half-applied preceding attribute, invalid argument sets, handle variants) at every reachable state: contents must equal the reference (unchanged / plus prefix), a valid index must equal a rebuild, and states reached through faults get all further operations and the read/getter batteries.",
+        E1NOTE, "4/C11",
     ),
     "C14": (
         "univ", "exploration",
